@@ -592,7 +592,7 @@ func runCheckOne(args []string) int {
 }
 
 var standingAssumptions = []string{
-	"Go integers are mathematical integers (no overflow / truncation modelled); float64 is modelled as real",
+	"Go integers are mathematical integers (no overflow / truncation modelled, except that a multiplication by a constant >= 1000 in a function under contract carries the side condition that the product fits in 64 bits); float64 is modelled as real",
 	"strings are SMT-LIB strings (ids and keys treated as character sequences)",
 	"pointer receivers are non-nil; pointer parameters are not nil-checked by the sweep",
 	"interface values never hold typed nil maps (JSON-shaped data)",
